@@ -33,14 +33,16 @@ CHECKS["C12"] = {
     "subs": [
         {"pkg": "pure", "test": "TestC12Phi", "quick": 20000, "thorough": 1500000, "shards_quick": 8, "shards_thorough": 16},
         {"pkg": "pure", "test": "TestC12PrefixIndependence", "quick": 5000, "thorough": 300000, "shards_quick": 4, "shards_thorough": 8},
+        {"pkg": "sim", "test": "TestC12Async", "quick": 24, "thorough": 800, "shards_quick": 4, "shards_thorough": 16},
+        {"pkg": "sim", "test": "TestC12Return", "quick": 200, "thorough": 6000, "shards_quick": 4, "shards_thorough": 12},
     ],
-    "engine": "PURE",
-    "level_text": "Property-based test of the arrival window and the detector map against an exact rational reference (math/big) over generated arrival sequences up to 5x the window length, plus direct accuracy/completeness bounds and a metamorphic prefix-independence relation. Exploration only.",
-    "technique": "differential PBT against an exact-arithmetic reference + metamorphic relation (rapid)",
+    "engine": "PURE+SIMA+SIM",
+    "level_text": "Property-based test of the arrival window and the detector map against an exact rational reference (math/big) over generated arrival sequences up to 5x the window length, plus direct accuracy/completeness bounds and a metamorphic prefix-independence relation; the detector inside the real gossip instance (real schedulers in virtual time: steady peers never suspected, a silent one within 45 virtual seconds) and across incarnations of a node id. Exploration only.",
+    "technique": "differential PBT against an exact-arithmetic reference + metamorphic relation (rapid); stateful PBT over real gossip instances in a virtual-time bubble",
     "assumptions": ["arrival timestamps strictly increase (wall clock in production)", "float comparison tolerance 1e-9 relative"],
 }
 
-SIM_NOTE = "the in-memory network and the synchronous scheduling of handler calls are the harness's model of UDP and of the node's goroutines; join/leave stream clients mirror Gossip.join/leave; known finding F3 (stale delta after an expiry) is excluded by dropping the packet"
+SIM_NOTE = "the in-memory network and the synchronous scheduling of handler calls are the harness's model of UDP and of the node's goroutines; join/leave stream clients mirror Gossip.join/leave (the real ones run in TestC02Stream/TestC17Stream on loopback sockets, the real UDP receive loop in TestC13Receive); known finding F3 (stale delta after an expiry) is excluded by dropping the packet"
 CHECKS["C02"] = {
     "subs": [{"pkg": "sim", "test": "TestKnownF3", "quick": 1, "thorough": 1, "shards": 1},
              {"pkg": "sim", "test": "TestC02Relay", "quick": 8000, "thorough": 80000, "shards_quick": 4, "shards_thorough": 8},
